@@ -290,7 +290,7 @@ func init() {
 		if in.pickNext(me) == nil {
 			return in.st.False
 		}
-		in.yieldUntil(nil)
+		in.yieldUntil(nil) // waiting always lets the others run, whatever the policy
 		return in.st.True
 	}
 }
